@@ -50,6 +50,13 @@ SMAPS_KEYS = ["Size", "KernelPageSize", "MMUPageSize", "Rss", "Pss", "Pss_Dirty"
               "Swap", "SwapPss", "Locked"]
 
 
+def _kbline(key, val):
+    """fs/proc/task_mmu.c: SEQ_PUT_DEC("Key:<pad to 16, at least one blank>", v) " kB" (number right-aligned, width 8)"""
+    k = (key + ":").encode()
+    k = k.ljust(16) if len(k) < 16 else k + b" "
+    return b"%s%8d kB" % (k, val)
+
+
 class Mapping:
     def __init__(self, start, end, perms="r-xp", offset=0, dev="08:01", inode=0,
                  path=b"", kb=None, thp=True, vmflags=b"rd ex mr mw me", pkey=None,
@@ -79,7 +86,7 @@ class Mapping:
         for k in SMAPS_KEYS:
             if k in self.omit:
                 continue
-            out.append(b"%-16s%8d kB" % ((k + ":").encode(), self.kb[k]))
+            out.append(_kbline(k, self.kb[k]))
         if self.thp is not None:
             out.append(b"THPeligible:    %d" % (1 if self.thp else 0))
         if self.pkey is not None:
@@ -260,7 +267,7 @@ def render_rollup(world, p):
     for k in SMAPS_KEYS:
         if k in skip or k in omit_all:
             continue
-        out.append(b"%-16s%8d kB" % ((k + ":").encode(), tot[k]))
+        out.append(_kbline(k, tot[k]))
         if k == "Pss" and "Pss_Anon" not in omit_all:
             out.append(b"Pss_Anon:       %8d kB" % (tot["Pss"] // 3))
             out.append(b"Pss_File:       %8d kB" % (tot["Pss"] // 5))
